@@ -92,13 +92,14 @@ func base(k addrKind, salt int) StreamCase {
 
 // Case is the unit of work and of replay.
 type Case struct {
-	Kind   string      `json:"kind"` // stream | multi | rport | oper | conc
+	Kind   string      `json:"kind"` // stream | multi | rport | oper | conc | stall
 	Class  string      `json:"class"`
 	Stream *StreamCase `json:"stream,omitempty"`
 	Multi  *MultiCase  `json:"multi,omitempty"`
 	Rport  *RportCase  `json:"rport,omitempty"`
 	Oper   *OperCase   `json:"oper,omitempty"`
 	Conc   *ConcCase   `json:"conc,omitempty"`
+	Stall  *StallCase  `json:"stall,omitempty"`
 }
 
 func (c *Case) key() string {
@@ -113,6 +114,8 @@ func (c *Case) key() string {
 		return c.Oper.key()
 	case "conc":
 		return c.Conc.key()
+	case "stall":
+		return c.Stall.key()
 	}
 	return c.Kind
 }
@@ -354,6 +357,13 @@ func buildPlan(seed int64, thorough bool) *plan {
 			rc.Mode = "keep-open"
 		}
 		p.scenarios = append(p.scenarios, Case{Kind: "rport", Class: "rportfwd", Rport: rc})
+	}
+	nStall := 6
+	if thorough {
+		nStall = 60
+	}
+	for i := 0; i < nStall; i++ {
+		p.scenarios = append(p.scenarios, Case{Kind: "stall", Class: "stalled-client", Stall: &StallCase{Seed: rng.Int63(), MiB: 24 + 8*(i%3)}})
 	}
 	operKinds := []OperCase{{Op: "clear", N: 1}, {Op: "clear", N: 2}, {Op: "clear", N: 3}, {Op: "kill", N: 3, I: 0}, {Op: "kill", N: 3, I: 1}, {Op: "kill", N: 3, I: 2},
 		{Op: "kill", N: 1, I: 0}, {Op: "add-dup", N: 1}, {Op: "kill-absent", N: 2}, {Op: "clear", N: 0}}
